@@ -71,3 +71,28 @@ C("mako.codegen:_GenerateRenderMethod.visitExpression",
            ("the expression is written through the whole pipeline D, P, local filters - whichever of them are empty",
             "G.emit_last == '__M_writer(%%s)' %% wrap_filters(%s, len(%s), node.text)" % (_XEFF, _XEFF))],
   raises={"*": {}}, props=["C02"], native_skip=True)
+
+# ---- write_def_finish: what a def / block with filter= or buffered="True" does with its collected content (C05, C02) ----
+_WDF = "mako.codegen:_GenerateRenderMethod.write_def_finish"
+CLASS("mako.parsetree:<def-or-block>", name="FilteredNode", fields={"filter_args": "ArgList"})
+CLASSES["CompileCtx"].fields["buffer_filters"] = parse_ty("List[Str]")
+_LOG4 = ["G.emit_n", "G.emit_last", "G.emit_prev", "G.dedents"]
+ASSUME("mako.pygen:PythonPrinter.writelines@" + _WDF,
+       params={"self": "Printer", "l0": "Opt[Str]=None", "l1": "Opt[Str]=None", "l2": "Opt[Str]=None"}, modifies=_LOG4,
+       ensures=[("two-lines-then-nothing-or-a-dedent", "implies(l0 is not None and l1 is not None and l2 is None, G.emit_last == the(l1) and G.emit_prev == the(l0))")],
+       raises={"*": {}}, note="writelines(*lines) as this caller uses it: two source lines, optionally followed by None (end of block)")
+_S0 = "'__M_buf.getvalue()'"
+_FA = "content(node.filter_args.args)"
+_S1 = "ite(truthy(filtered), wrap_filters(%s, len(%s), %s), %s)" % (_FA, _FA, _S0, _S0)
+_BF = "content(self.compiler.buffer_filters)"
+_S2 = "ite(truthy(buffered) and not truthy(cached), wrap_filters(%s, len(%s), %s), %s)" % (_BF, _BF, _S1, _S1)
+C(_WDF,
+  params={"self": "GenRM", "node": "FilteredNode", "buffered": "Any", "filtered": "Any", "cached": "Any", "callstack": "Any=True"},
+  requires=[("lists-present", "node.filter_args is not None and node.filter_args.args is not None and self.compiler.buffer_filters is not None")],
+  modifies=_LOG4,
+  ensures=[("a buffered or cached def returns its content, through its own filters once and then the buffer filters",
+            "implies(truthy(buffered) or truthy(cached), G.emit_last == 'return %%s' %% %s)" % _S2),
+           ("a def or block with filter= writes its whole content once through exactly those filters",
+            "implies(truthy(filtered) and not truthy(buffered) and not truthy(cached), G.emit_prev == '__M_writer(%%s)' %% %s and G.emit_last == \"return ''\")" % _S1)],
+  raises={"*": {}}, props=["C05", "C02"], native_skip=True,
+  note="neither default_filters nor <%page expression_filter> takes part: those belong to ${} expressions")
